@@ -14,11 +14,20 @@ type OTLPDecoder struct {
 	onSpan onSpanHandler
 }
 
-func getOtlpAttr(attrs []*v11.KeyValue, key string) *v11.KeyValue {
-	for _, attr := range attrs {
-		if attr.Key == key {
-			return attr
+// otlpAttrIdx returns the position of the attribute stored under key or -1. When a key occurs more
+// than once the last one wins, as in the flattened tag map and in the reader's first-level map.
+func otlpAttrIdx(attrs []*v11.KeyValue, key string) int {
+	for i := len(attrs) - 1; i >= 0; i-- {
+		if attrs[i].Key == key {
+			return i
 		}
+	}
+	return -1
+}
+
+func getOtlpAttr(attrs []*v11.KeyValue, key string) *v11.KeyValue {
+	if i := otlpAttrIdx(attrs, key); i >= 0 {
+		return attrs[i]
 	}
 	return nil
 }
@@ -26,18 +35,21 @@ func getOtlpAttr(attrs []*v11.KeyValue, key string) *v11.KeyValue {
 func otlpGetServiceNames(attrs []*v11.KeyValue) (string, string) {
 	local := ""
 	remote := ""
+	// the first attribute of the list holding a non-empty string names the service
+	// (same list, same precedence as parseOTLP on the read side)
 	for _, attr := range []string{
-		"peer.service", "service.name", "faas.name", "k8s.deployment.name", "process.executable.name",
+		"service.name", "peer.service", "faas.name", "k8s.deployment.name", "process.executable.name",
 	} {
 		val := getOtlpAttr(attrs, attr)
 		if val == nil {
 			continue
 		}
 		_val, ok := val.Value.Value.(*v11.AnyValue_StringValue)
-		if !ok {
+		if !ok || _val.StringValue == "" {
 			continue
 		}
 		local = _val.StringValue
+		break
 	}
 	for _, attr := range []string{"service.name", "faas.name", "k8s.deployment.name", "process.executable.name"} {
 		val := getOtlpAttr(attrs, attr)
@@ -56,20 +68,25 @@ func otlpGetServiceNames(attrs []*v11.KeyValue) (string, string) {
 	return local, remote
 }
 
-func populateServiceNames(span *trace.Span) {
+// populateServiceNames makes the span carry its resolved service name as the string attribute
+// "service.name" and returns that name.
+func populateServiceNames(span *trace.Span) string {
 	local, remote := otlpGetServiceNames(span.Attributes)
-	attr := getOtlpAttr(span.Attributes, "service.name")
-	if attr == nil {
-		span.Attributes = append(span.Attributes,
-			&v11.KeyValue{Key: "service.name", Value: &v11.AnyValue{Value: &v11.AnyValue_StringValue{StringValue: local}}},
-		)
+	serviceName := &v11.KeyValue{Key: "service.name", Value: &v11.AnyValue{Value: &v11.AnyValue_StringValue{StringValue: local}}}
+	if idx := otlpAttrIdx(span.Attributes, "service.name"); idx < 0 {
+		span.Attributes = append(span.Attributes, serviceName)
+	} else {
+		// a non-empty string service.name is the resolved name already; an empty or non-string one is
+		// superseded. The element is replaced, not mutated: resource attributes are shared by the spans.
+		span.Attributes[idx] = serviceName
 	}
-	attr = getOtlpAttr(span.Attributes, "remoteService.name")
+	attr := getOtlpAttr(span.Attributes, "remoteService.name")
 	if attr == nil {
 		span.Attributes = append(span.Attributes,
 			&v11.KeyValue{Key: "remoteService.name", Value: &v11.AnyValue{Value: &v11.AnyValue_StringValue{StringValue: remote}}},
 		)
 	}
+	return local
 }
 
 func (d *OTLPDecoder) Decode() error {
@@ -79,13 +96,14 @@ func (d *OTLPDecoder) Decode() error {
 			for _, span := range scope.Spans {
 				span.Attributes = append(span.Attributes, res.Resource.Attributes...)
 				attrsMap := map[string]string{}
-				populateServiceNames(span)
+				serviceName := populateServiceNames(span)
 				d.initAttributesMap(span.Attributes, "", &attrsMap)
 				payload, err := proto.Marshal(span)
 				if err != nil {
 					return customErrors.NewUnmarshalError(err)
 				}
 				attrsMap["name"] = span.Name
+				attrsMap["service.name"] = serviceName
 				keys := make([]string, len(attrsMap))
 				vals := make([]string, len(attrsMap))
 				i := 0
@@ -96,7 +114,7 @@ func (d *OTLPDecoder) Decode() error {
 				}
 				err = d.onSpan(span.TraceId, span.SpanId, int64(span.StartTimeUnixNano),
 					int64(span.EndTimeUnixNano-span.StartTimeUnixNano),
-					string(span.ParentSpanId), span.Name, attrsMap["service.name"], payload,
+					string(span.ParentSpanId), span.Name, serviceName, payload,
 					keys, vals)
 				if err != nil {
 					return err
